@@ -24,6 +24,8 @@ CHECKS = {
              text="Every (start,count,stride) tuple within and beyond 1-2 dimensional shapes of length 1..3 (3-D sampled/thorough), all API forms incl. varn and nonblocking, strict and relaxed coordinate bounds, three formats: return code must be in the set the documented precedence allows; rejected/zero-length/read requests must leave the file byte-identical; accepted writes may change only bytes of the addressed elements (offsets from an independent decoder) and the numrecs field. exhaustive:true only for the enumerated small-shape domain."),
  "C13": dict(level="exploration", section="4/C13", technique="property-based testing (Hypothesis) of post/wait/cancel/attach/detach/close histories with guarded buffers and an accounting model",
              text="Generated single-process histories of blocking and nonblocking puts/gets/bputs with request sizes on both sides of the in-place-swap threshold, all swap hint settings, derived buffer datatypes, attach/detach at legal and illegal moments and every exit (return, wait, wait_all, cancel, close with pending requests): the executor compares every write buffer with its pre-call image and every read buffer's guard zones/gaps, and inq_buffer_size/usage and bput refusals are compared with an accounting model. One known finding (tail-only reclamation of the attached buffer) is matched by signature."),
+ "C17": dict(level="exploration", section="4/C17", technique="property-based testing (Hypothesis state machine over several open files) with id model, traced-heap and PMPI object-ledger oracles",
+             text="Generated interleavings of create/open/close/abort over up to 6 files with successful and failing calls of every API family, calls on ids that are not open (stale, unused, negative, huge), close with pending requests, and one deterministic NC_MAX_NFILES+1 case; ids must follow the model, NC_EBADID must be returned without crashing, other open files must be unaffected, and whenever no file is open ncmpi_inq_malloc_size (PNC_MALLOC_TRACE) must be back to its value at script start and the ledger of MPI datatypes/communicators/infos/file handles created by library code must be balanced."),
 }
 NA_REASON = "check under construction in this session; not yet claimed"
 checks = []
